@@ -8,7 +8,7 @@ import ast
 from .terms import access_path, is_lit, root_of, show
 from .walker import flatten_events
 
-DECORATOR_WHITELIST = {"classmethod", "staticmethod", "property", "abstractmethod", "abc.abstractmethod", "overload", "typing.overload", "conda.plugins.hookimpl", "contextmanager", "contextlib.contextmanager"}
+DECORATOR_WHITELIST = {"classmethod", "staticmethod", "property", "abstractmethod", "abc.abstractmethod", "overload", "typing.overload", "conda.plugins.hookimpl", "contextmanager", "contextlib.contextmanager", "dataclass", "dataclasses.dataclass", "functools.wraps", "wraps", "enum.unique", "unique", "functools.total_ordering", "total_ordering", "typing.final", "final", "typing.runtime_checkable", "runtime_checkable"}
 MUTATING_EXTERNALS = {"ext:random.shuffle": [0], "ext:json.dump": [1], "ext:heapq.heappush": [0], "ext:heapq.heappop": [0], "ext:bisect.insort": [0]}
 
 
@@ -179,6 +179,51 @@ def decorators(prog, modules):
             node = d.func if isinstance(d, ast.Call) else d
             out.append((ci, ast.unparse(node), None))
     return out
+
+
+def repo_decorator_is_stateless(prog, mod, node):
+    """is the decorator expression `node` (a repo function, or a call of a repo decorator factory)
+    free of state shared between calls of the decorated function?  The wrapper(s) it builds may
+    keep no container created in an enclosing scope that they also modify, declare nothing
+    nonlocal/global, and have no mutable default.  None: not a repo-defined decorator."""
+    target = node.func if isinstance(node, ast.Call) else node
+    r = prog.resolve_expr_static(mod, target)
+    if not r or r[0] != "func" or r[1] not in prog.funcs:
+        return None
+    fi = prog.funcs[r[1]]
+    muts = {"append", "extend", "insert", "pop", "popitem", "remove", "clear", "update", "setdefault", "add", "discard", "sort", "reverse", "__setitem__", "move_to_end"}
+    outer_mut = set()  # names bound to fresh mutable containers in an enclosing function
+    bad = []
+
+    def scan(fn_node, enclosing):
+        own = set()
+        for x in ast.walk(fn_node):
+            if isinstance(x, (ast.Nonlocal, ast.Global)):
+                bad.append("declares %s" % ", ".join(x.names))
+        a = fn_node.args
+        for d in list(a.defaults) + [k for k in a.kw_defaults if k is not None]:
+            if isinstance(d, (ast.List, ast.Dict, ast.Set)):
+                bad.append("mutable default argument")
+        for st in ast.walk(fn_node):
+            if isinstance(st, ast.Assign) and len(st.targets) == 1 and isinstance(st.targets[0], ast.Name):
+                v = st.value
+                if isinstance(v, (ast.List, ast.Dict, ast.Set, ast.ListComp, ast.DictComp, ast.SetComp)) or (isinstance(v, ast.Call) and ast.unparse(v.func) in ("dict", "list", "set", "defaultdict", "collections.defaultdict", "OrderedDict", "collections.OrderedDict", "deque", "collections.deque")):
+                    own.add(st.targets[0].id)
+        for inner in [n for n in ast.walk(fn_node) if isinstance(n, (ast.FunctionDef, ast.Lambda)) and n is not fn_node]:
+            local = {x.arg for x in inner.args.args + inner.args.kwonlyargs}
+            for x in ast.walk(inner):
+                nm = None
+                if isinstance(x, ast.Subscript) and isinstance(x.ctx, (ast.Store, ast.Del)) and isinstance(x.value, ast.Name):
+                    nm = x.value.id
+                elif isinstance(x, ast.Call) and isinstance(x.func, ast.Attribute) and x.func.attr in muts and isinstance(x.func.value, ast.Name):
+                    nm = x.func.value.id
+                elif isinstance(x, ast.AugAssign) and isinstance(x.target, ast.Name):
+                    nm = x.target.id
+                if nm and nm not in local and nm in (own | enclosing):
+                    bad.append("a wrapper modifies %s, which lives across calls" % nm)
+
+    scan(fi.node, set())
+    return (not bad, "; ".join(sorted(set(bad))))
 
 
 def mutable_defaults(prog, modules):
